@@ -315,10 +315,11 @@ class Translator:
                 if lit:
                     return Ex(f"(Py.{f}N {x} {n.right.value})", "int")
                 return Ex(f"Py.{f} {x} {y}", "int", True)
+            nz = isinstance(n.right, ast.Constant) and type(n.right.value) is int and n.right.value != 0
             if op == "FloorDiv":
-                return Ex(f"Py.floordiv {x} {y}", "int", True)
+                return Ex(f"(Py.floordivL {x} {y})", "int") if nz else Ex(f"Py.floordiv {x} {y}", "int", True)
             if op == "Mod":
-                return Ex(f"Py.mod {x} {y}", "int", True)
+                return Ex(f"(Py.modL {x} {y})", "int") if nz else Ex(f"Py.mod {x} {y}", "int", True)
             if op == "Pow":
                 if lit:
                     return Ex(f"({x} ^ {n.right.value})", "int")
@@ -442,6 +443,9 @@ class Translator:
                     return f"(Py.range1 {a[0]})", "int"
                 if len(a) == 2:
                     return f"(Py.range2 {a[0]} {a[1]})", "int"
+                st = n.args[2]
+                if isinstance(st, ast.Constant) and type(st.value) is int and st.value > 0:
+                    return f"(Py.range3p {a[0]} {a[1]} {st.value})", "int"
                 return f"(← Py.range3 {a[0]} {a[1]} {a[2]})", "int"
             if f == "zip" and not n.keywords and len(n.args) == 2:
                 (a, ta), (b, tb) = self.iterable(n.args[0], env), self.iterable(n.args[1], env)
